@@ -201,13 +201,14 @@ double GammaQint(double x, double a)
 		};
 		if(x < tMin)
 			tMin = 0.0;
-		// Precision
-		double eps = Find_Epsilon(integrand, tMin, x, 1e-5);
-		// Integrate
-		gammaP = Integrate(integrand, tMin, x, eps);
+		// Integrate (The error estimate of the adaptive Simpson method can be fooled by the bell shaped integrand. Gauss-Legendre quadrature is robust here.)
+		// Above the peak, the upper tail is integrated directly to avoid the cancellation in 1-P.
+		if(x > tPeak)
+			return std::max(0.0, std::min(1.0, Integrate_Gauss_Legendre(integrand, x, tMax, 200)));
+		gammaP = Integrate_Gauss_Legendre(integrand, tMin, x, 200);
 	}
 
-	return 1.0 - gammaP;
+	return std::max(0.0, std::min(1.0, 1.0 - gammaP));
 }
 
 // Series expansion of P(x,a)
